@@ -4,7 +4,7 @@ with issuance as a multi-party history.  DESIGN.md section 3.2."""
 import copy
 
 from ..prng import Rng
-from ..seams import CLOCK, F, T, reset_world
+from ..seams import CLOCK, F, T, reset_world, LIB_ERRORS
 from ..core import real
 from ..oracle import (ACCEPT, REJECT, EITHER, slack3, slack_tripped_int, validsig,
                       ed_verify, pubkey_of_seed)
@@ -37,7 +37,7 @@ RULE = ('each run = 10-25 spend attempts on delegate-key and delegate-key-chain 
         'attack, window class, slack class, clock fault, verdict)')
 ATTACKS = ['none', 'none', 'flip_key', 'flip_begin', 'flip_end', 'flip_can', 'flip_sig',
            'flip_final_sig', 'splice', 'drop', 'dup', 'swap', 'nodelegate', 'wrong_signer',
-           'cross_lock', 'bad_flag', 'replay_after_expiry', 'flip_marker']
+           'cross_lock', 'bad_flag', 'replay_after_expiry', 'flip_marker', 'foreign_witness']
 WINS = ['begin-1', 'begin', 'end-1', 'end', 'end+1', 'mid']
 SLK = ['ok', 'eq', 'minus1']
 CF = ['none', 'step_back_between', 'other']
@@ -47,7 +47,8 @@ REQUIRED_PROBES = ['t==begin', 't==end-1', 't==end'] + \
     ['nonfinal_nodelegate', 'splice', 'field_flip_key', 'field_flip_begin',
      'field_flip_end', 'field_flip_can', 'field_flip_sig', 'step_between_reads',
      'replay_after_expiry', 'cross_lock_witness', 'cert_roundtrip',
-     'honest_accept_single', 'honest_accept_chain']
+     'honest_accept_single', 'honest_accept_chain', 'threshold_per_call',
+     'second_hierarchy', 'foreign_witness_verified_under_own_root_first']
 NAMES = ['K', 'Kp'] + ['D%d' % i for i in range(1, 7)] + ['F%d' % i for i in range(1, 7)]
 FIELD_RANGE = {'key': (0, 32), 'begin': (32, 36), 'end': (36, 40), 'can': (40, 41),
                'sig': (41, 105)}
@@ -89,6 +90,10 @@ def gen_step(rng, cell, clocks, vname, at_us, thr, fault_free):
         t = now + thr - 1
     t = clampts(t)
     chain = []
+    # two hierarchies are in honest use on the same validators: root K with
+    # delegates D1.., and root Kp with delegates F1..
+    root = 'K' if rng.chance(3, 4) else 'Kp'
+    pre = 'D' if root == 'K' else 'F'
     target = rng.below(ln)
     for j in range(ln):
         b = t - rng.choice([0, 1, 100, 10 ** 5])
@@ -105,12 +110,14 @@ def gen_step(rng, cell, clocks, vname, at_us, thr, fault_free):
                 b, e = t - w, t
             elif win == 'end+1':
                 b, e = t - 1 - w, t - 1
-        issuer = 'K' if j == 0 else 'D%d' % j
-        chain.append({'issuer': issuer, 'subject': 'D%d' % (j + 1),
+        issuer = root if j == 0 else '%s%d' % (pre, j)
+        chain.append({'issuer': issuer, 'subject': '%s%d' % (pre, j + 1),
                       'begin': clampts(b), 'end': clampts(e),
                       'can': True if j < ln - 1 else rng.chance(1, 2)})
     step = {'at_us': at_us, 'validator': vname, 'lock': lock, 'witness': lock,
-            't': t, 'thr': thr, 'chain': chain, 'signer': 'D%d' % ln,
+            'root': root, 'via': rng.choice(['global', 'global', 'additional']),
+            'gthr': rng.choice([60, 0, 1, 10 ** 6]),
+            't': t, 'thr': thr, 'chain': chain, 'signer': '%s%d' % (pre, ln),
             'allowed': rng.choice(['00', '00', '01', '03']), 'flag': '00',
             'sigfields': {'sigfield%d' % k: rng.bytes(rng.choice([1, 16, 64])).hex()
                           for k in rng.sample(range(1, 9), rng.rng(1, 3))},
@@ -129,6 +136,8 @@ def gen_step(rng, cell, clocks, vname, at_us, thr, fault_free):
         step['attack'] = {'kind': 'flip_marker', 'link': rng.below(ln), 'bit': rng.below(8)}
     elif a == 'splice':
         step['attack'] = {'kind': 'splice', 'cert': rng.below(ln)}
+    elif a == 'foreign_witness':
+        step['attack'] = {'kind': 'foreign_witness'}
     elif a in ('drop', 'dup') and lock == 'chain':
         step['attack'] = {'kind': a, 'cert': rng.below(ln)}
     elif a == 'swap' and lock == 'chain' and ln >= 2:
@@ -137,7 +146,7 @@ def gen_step(rng, cell, clocks, vname, at_us, thr, fault_free):
     elif a == 'nodelegate' and ln >= 2:
         chain[rng.below(ln - 1)]['can'] = False
     elif a == 'wrong_signer':
-        step['signer'] = rng.choice(['D%d' % k for k in range(1, 7) if k != ln] + ['K'])
+        step['signer'] = rng.choice(['%s%d' % (pre, k) for k in range(1, 7) if k != ln] + [root])
     elif a == 'cross_lock':
         step['witness'] = 'chain' if lock == 'single' else 'single'
     elif a == 'bad_flag':
@@ -307,7 +316,9 @@ def execute(plan, run):
         CLOCK.tau = max(CLOCK.tau, step['at_us'])
         ln = len(step['chain'])
         sf = {k: bytes.fromhex(v) for k, v in step['sigfields'].items()}
-        root_pk = keys['K'][1]
+        root = step.get('root', 'K')
+        pre = 'D' if root == 'K' else 'F'
+        root_pk = keys[root][1]
         packed = [issue(c['issuer'], c['subject'], c['begin'], c['end'], c['can'])[1]
                   for c in step['chain']]
         signer = keys[step['signer']][0]
@@ -336,15 +347,27 @@ def execute(plan, run):
             w = T.Script.from_src(src)
         lock = real('make_delegate_key_lock', T.make_delegate_key_lock if step['lock'] == 'single'
                     else T.make_delegate_key_chain_lock, root_pk, step['allowed'])
-        F.flags['ts_threshold'] = step['thr']
         CLOCK.latency_us = kn['latency_us']
         CLOCK.begin_call(step['validator'], step['faults'])
         try:
-            try:
-                r = F.run_auth_scripts([w, lock], {**sf, 'timestamp': step['t']})
-            except BaseException as e:      # noqa
-                run.aux_auth_raised += 1
-                r = 'raised_' + type(e).__name__
+            if step.get('via') == 'additional':
+                # the verifier supplies its slack threshold per call
+                run.probe('threshold_per_call')
+                # ... while the process-wide default says something else
+                F.flags['ts_threshold'] = step.get('gthr', 60)
+                try:
+                    _, stk2, _ = F.run_script(w.bytes + lock.bytes, {**sf, 'timestamp': step['t']},
+                                              additional_flags={'ts_threshold': step['thr']})
+                    r = stk2.list() == [b'\xff']
+                except LIB_ERRORS:
+                    r = False
+            else:
+                F.flags['ts_threshold'] = step['thr']
+                try:
+                    r = F.run_auth_scripts([w, lock], {**sf, 'timestamp': step['t']})
+                except BaseException as e:      # noqa
+                    run.aux_auth_raised += 1
+                    r = 'raised_' + type(e).__name__
         finally:
             reads = CLOCK.end_call()
         obs = ACCEPT if r is True else REJECT if r is False else 'BAD:' + str(r)
@@ -364,11 +387,12 @@ def execute(plan, run):
                           'witness': step['witness'], 'signer': step['signer']})
         # who-level oracle for honest attempts: completeness of the builders
         honest = (not atk and step['witness'] == step['lock'] and
-                  step['signer'] == 'D%d' % ln and
+                  step['signer'] == '%s%d' % (pre, ln) and
                   all(c['can'] for c in step['chain'][:-1]) and
                   all(c['begin'] <= t < c['end'] for c in step['chain']) and
                   (int(step['flag'], 16) & ~int(step['allowed'], 16) & 0xff) == 0 and
-                  all(c['issuer'] == ('K' if j == 0 else 'D%d' % j) for j, c in enumerate(step['chain'])))
+                  all(c['issuer'] == (root if j == 0 else '%s%d' % (pre, j))
+                      for j, c in enumerate(step['chain'])))
         if honest:
             s3 = slack3(t, reads, step['thr'])
             want = ACCEPT if s3 is True else REJECT if s3 is False else EITHER
@@ -385,7 +409,7 @@ def execute(plan, run):
             run.check('only_honest_accepted', not inwin,
                       'C14/%s_lock/builder_flow/dishonest_attempt_accepted/%s' % (
                           step['lock'],
-                          'wrong_signer' if step['signer'] != 'D%d' % ln else
+                          'wrong_signer' if step['signer'] != '%s%d' % (pre, ln) else
                           'cross_lock' if step['witness'] != step['lock'] else
                           'nodelegate' if not all(c['can'] for c in step['chain'][:-1]) else
                           'flag' if (int(step['flag'], 16) & ~int(step['allowed'], 16)) else 'other'),
@@ -402,6 +426,8 @@ def execute(plan, run):
             if t == c['end']:
                 run.probe('t==end')
         run.probe('chain_len_%d' % ln)
+        if root == 'Kp':
+            run.probe('second_hierarchy')
         if not all(c['can'] for c in step['chain'][:-1]):
             run.probe('nonfinal_nodelegate')
         if step['witness'] != step['lock']:
@@ -457,11 +483,35 @@ def attack(items, atk, step, keys, run):
     elif k == 'splice':
         j = atk['cert'] if chainw else ln - 1
         c = step['chain'][j]
-        issuer = 'Kp' if j == 0 else 'F%d' % j
+        oroot, opre = ('Kp', 'F') if step.get('root', 'K') == 'K' else ('K', 'D')
+        issuer = oroot if j == 0 else '%s%d' % (opre, j)
         forged = T.make_delegate_key_cert(keys[issuer][0], keys[c['subject']][1],
                                           c['begin'], c['end'], c['can']).pack()
         items[cert_pos(j if chainw else 0)] = forged
         run.probe('splice')
+    elif k == 'foreign_witness':
+        oroot, opre = ('Kp', 'F') if step.get('root', 'K') == 'K' else ('K', 'D')
+        sf = {kk: bytes.fromhex(v) for kk, v in step['sigfields'].items()}
+        packed = []
+        for j, c in enumerate(step['chain']):
+            iss = oroot if j == 0 else '%s%d' % (opre, j)
+            packed.append(T.make_delegate_key_cert(keys[iss][0], keys['%s%d' % (opre, j + 1)][1],
+                                                   c['begin'], c['end'], c['can']).pack())
+        signer = keys['%s%d' % (opre, ln)][0]
+        if chainw:
+            w2 = T.make_delegate_key_chain_witness(signer, list(reversed(packed)), sf, step['flag'])
+            lock2 = T.make_delegate_key_chain_lock(keys[oroot][1], step['allowed'])
+        else:
+            w2 = T.make_delegate_key_witness(signer, packed[-1], sf, step['flag'])
+            lock2 = T.make_delegate_key_lock(keys[oroot][1], step['allowed'])
+        # honest use under its own root first (same validator process) ...
+        F.flags['ts_threshold'] = 0
+        first = F.run_auth_scripts([w2, lock2], {**sf, 'timestamp': step['t']})
+        if first is True:
+            run.probe('foreign_witness_verified_under_own_root_first')
+        # ... then the very same witness is presented on the other root's lock
+        _, stk, _ = F.run_script(w2.bytes)
+        items = stk.list()
     elif k == 'drop' and chainw:
         pos = cert_pos(atk['cert'])
         del items[pos - 1:pos + 1]
@@ -497,8 +547,8 @@ def shrink(plan):
         if len(s['chain']) > 1 and s['lock'] == 'chain' and not s.get('attack'):
             c = copy.deepcopy(p)
             c['steps'][i]['chain'] = s['chain'][:-1]
-            if s['signer'] == 'D%d' % len(s['chain']):
-                c['steps'][i]['signer'] = 'D%d' % (len(s['chain']) - 1)
+            if s['signer'][1:] == str(len(s['chain'])):
+                c['steps'][i]['signer'] = s['signer'][0] + str(len(s['chain']) - 1)
             yield c
         if len(s['sigfields']) > 1:
             c = copy.deepcopy(p)
